@@ -717,9 +717,10 @@ class unyt_array(np.ndarray):
             # if our dtype is an integer do the following somewhat awkward
             # dance to change the dtype in-place. We can't use astype
             # directly because that will create a copy and not update self
-            if self.dtype.kind in ("u", "i"):
-                # create a copy of the original data in floating point
-                # form, it's possible this may lose precision for very
+            was_integer = self.dtype.kind in ("u", "i")
+            if was_integer:
+                # create a converted copy of the original data in floating
+                # point form, it's possible this may lose precision for very
                 # large integers
                 dsize = values.dtype.itemsize
                 if dsize == 1:
@@ -736,7 +737,9 @@ class unyt_array(np.ndarray):
                         RuntimeWarning,
                         stacklevel=2,
                     )
-                float_values = values.astype(new_dtype)
+                # scale before narrowing, exactly like in_units does, so that
+                # both routes round once and agree
+                float_values = np.asarray(values * conv_factor, dtype=new_dtype)
                 # change the dtypes in-place, this does not change the
                 # underlying memory buffer
                 values.dtype = new_dtype
@@ -747,7 +750,8 @@ class unyt_array(np.ndarray):
             # only relabel once nothing can refuse the conversion any more, so
             # that a failed in-place conversion leaves the array as it was
             self.units = new_units
-            values *= conv_factor
+            if not was_integer:
+                values *= conv_factor
 
             if offset:
                 np.subtract(values, offset, values)
